@@ -168,6 +168,34 @@ theorem decl_unique (b : Backend) (api : Api) (o : Options) (inj : nameInjective
     ∀ d ∈ declsOf b api o, ((declsOf b api o).filter fun d' => decide (d'.key = d.key)).length = 1 :=
   fun d hd => count_one_of_nodup Decl.key _ d.key inj (List.mem_map_of_mem hd)
 
+/-- coverage for the Swift client: every route that is valid for the auth type has its function in the routes class
+of its namespace (one per client-argument variant of its style).
+PARTIAL: `itemKeys` (and with it `decl_once`) lists the items of the three type backends only. For the client backends
+"exactly once" means once per (route, client-argument variant) -- overloads share the function name -- which is
+checked on the real output by the declaration scanner (expected multiplicities) but not stated as a theorem; the
+Objective-C client methods (`obj_c_client`) and the request wrapper classes are covered by the correspondence suite
+only. -/
+theorem route_covered_swiftClient_partial (api : Api) (o : Options) :
+    ∀ ns ∈ api.nss, ∀ r ∈ validRoutes o ns, o.variants r.style ≠ [] →
+      ("", "func", [swRoutesClassName ns.name (isApp o)], swFunc r.name r.version) ∈
+        (swiftClientDecls api o).map Decl.key := by
+  intro ns hns r hr hv
+  obtain ⟨v, hvm⟩ := List.exists_mem_of_ne_nil _ hv
+  have hne : (validRoutes o ns).isEmpty = false := by
+    cases h : validRoutes o ns with
+    | nil => simp [h] at hr
+    | cons a b => rfl
+  have hf : ("", "func", [swRoutesClassName ns.name (isApp o)], swFunc r.name r.version) ∈
+      (swClientFuncs api o ns).map Decl.key := by
+    simp only [swClientFuncs, List.map_flatMap, List.map_map, List.mem_flatMap, List.mem_map]
+    exact ⟨r, hr, v, hvm, by simp [Decl.key]⟩
+  obtain ⟨d, hd, hk⟩ := List.mem_map.mp hf
+  refine List.mem_map.mpr ⟨d, ?_, hk⟩
+  simp only [swiftClientDecls, List.mem_append, List.mem_flatMap]
+  refine Or.inl (Or.inl ⟨ns, hns, ?_⟩)
+  simp only [swClientNsDecls, hne, Bool.false_eq_true, ↓reduceIte, List.mem_cons]
+  exact Or.inr hd
+
 /-- an invocation either stops with the explicit error or declares `declsOf` -/
 theorem decls_eq (b : Backend) (api : Api) (o : Options) :
     decls b api o = (match crash b api o with
@@ -243,6 +271,8 @@ example : nameInjective .swiftTypes miniApi sampleOpts := by decide +kernel
 example : nameInjective .swiftTypesObjc miniApi sampleOpts := by decide +kernel
 example : nameInjective .objcTypes miniApi sampleOpts := by decide +kernel
 example : nameInjective .swiftClient miniApi sampleOpts := by decide +kernel
+example : (validRoutes sampleOpts (miniApi.nss.headD default)).length = 2 ∧ sampleOpts.variants (some "upload") ≠ [] := by
+  decide +kernel
 example : (itemKeys .swiftTypes miniApi).length = 11 := by decide +kernel
 example : (itemKeys .swiftTypes sampleApi).length = 31 := by decide +kernel
 example : (itemKeys .objcTypes sampleApi).length = 44 := by decide +kernel
